@@ -104,6 +104,11 @@ def check_case(case, res):
     if k == "ctor":
         dtype = getattr(d.DeviceType, case["type"])
         want_ok = dtype.category.name == CLASSES[case["cls"]]
+        import dataclasses
+
+        if case.get("how") == "replace" and not dataclasses.is_dataclass(getattr(d, case["cls"])):
+            res.counters["replace_not_applicable"] += 1
+            return
         try:
             obj = _build(case["cls"], dtype, case.get("how", "positional"))
             raised = None
